@@ -1,10 +1,48 @@
-import Rooc.Wire
-import Rooc.Oracle
+import Rooc.WireModel
+import Rooc.Linearize
+import Rooc.Compile
+import Rooc.Gen.Consts
 namespace Rooc.Drv.C01
-open Rooc Sexp
+open Rooc Sexp Lin
 
-/-- model requests for C01 (run at `Float` for the exact diff, at `Ext Rat` as oracle). -/
+variable {α : Type} [Arith α] [Wire α]
+
+def encErr : LinErr → Sexp
+  | .nonLinear => app "err" [.atom "NonLinearExpression"]
+  | .divisionByZero => app "err" [.atom "DivisionByZero"]
+  | .emptyAggregation k => app "err" [.atom "EmptyAggregation", .str k]
+  | .varAlreadyDeclared n => app "err" [.atom "VarAlreadyDeclared", .str n]
+  | .unimplemented => app "err" [.atom "UnimplementedExpression"]
+  | .nonBinaryLogicOperand => app "err" [.atom "NonBinaryLogicOperand"]
+  | .missingFiniteBounds vs => app "err" [.atom "MissingFiniteBounds", .list (vs.map .str)]
+  | .fuel => app "err" [.atom "fuel"]
+
+def decBounds : Sexp → Option (BoundsMap α)
+  | .list (.atom "bounds" :: bs) => optAll (bs.map fun
+      | .list [.str n, .list [.atom "b", lo, hi]] => do pure (n, ⟨← decNumS lo, ← decNumS hi⟩)
+      | _ => none)
+  | _ => none
+
+def decDomain : Sexp → Option (List (DomVar α))
+  | .list (.atom "domain" :: ds) => optAll (ds.map DomVar.dec)
+  | _ => none
+
+/-- model requests shared by C01 / C02 / C08. -/
 def handle (α : Type) [Arith α] [Wire α] : List Sexp → Sexp
+  | [.atom "linearize", m, b, d] =>
+    match (Model.dec m : Option (Model α)), (decBounds b : Option (BoundsMap α)), (decDomain d : Option (List (DomVar α))) with
+    | some m, some b, some d =>
+      match linearizeWith m b d with
+      | .ok lm => app "ok" [lm.enc]
+      | .error e => encErr e
+    | _, _, _ => app "err" [.atom "decode"]
+  | [.atom "linearize-full", m, tol] =>
+    match (Model.dec m : Option (Model α)), (decNumS tol : Option α) with
+    | some m, some tol =>
+      match Compile.linearize m tol Gen.boundsMaxSteps with
+      | .ok lm => app "ok" [lm.enc]
+      | .error e => encErr e
+    | _, _ => app "err" [.atom "decode"]
   | _ => app "err" [.atom "bad-request"]
 
 /-- exact oracle: the PROPERTY evaluated on the implementation's own answer. -/
